@@ -4,7 +4,7 @@ from __future__ import annotations
 import time
 
 from .. import opcat_tensor, opcat_nn
-from ..harness import OpCase
+from ..harness import OpCase, gradof, set_grad
 from .. import runner
 
 PROP = "C10"
@@ -133,7 +133,7 @@ class GradHistory:
             z.backward(seed("s1", (2,), g1))
             y.backward(seed("s2", (2,), g2))
         for nm, t in watch:
-            gr = t._grad
+            gr = gradof(t)
             if gr is None:
                 if nm == "w" and name != "mixed_operands":
                     continue
